@@ -184,8 +184,19 @@ var glslKeywords = map[string]struct{}{
 
 // isKeyword checks if a name is a GLSL keyword or reserved word.
 func isKeyword(name string) bool {
+	if _, ok := writerGlobals[name]; ok {
+		return true
+	}
 	_, ok := glslKeywords[name]
 	return ok
+}
+
+// writerGlobals are module-scope names the GLSL writer emits verbatim; a user
+// entity spelled the same would be redeclared or capture the writer's references.
+var writerGlobals = map[string]struct{}{
+	"naga_modf":              {},
+	"naga_frexp":             {},
+	"naga_vs_first_instance": {},
 }
 
 // escapeKeyword escapes a name if it conflicts with GLSL keywords.
